@@ -28,10 +28,10 @@ EXTENDS LoggerCid, Json
 VARIABLE i          \* index of the next event
 tvars == <<vars, i>>
 
-Trace    == ndJsonDeserialize("trace.ndjson")
+Trace    == TLCEval(ndJsonDeserialize("trace.ndjson"))      \* TLCEval: read the file once
 TracePid == Trace[1].pid
-TraceN   == LET ns == {Trace[j].n : j \in {k \in 1..Len(Trace) : Trace[k].e = "reset"}}
-            IN CHOOSE m \in ns : \A o \in ns : o <= m
+\* N is a plain number in the cfg (an upper bound of the goroutines of a run): defining it
+\* from the trace (N <- ...) makes TLC re-read the file at every step.
 
 Max(a, b) == IF a >= b THEN a ELSE b
 Quiet(g)  == rd[g] = Idle /\ pend[g] = <<>>
